@@ -383,10 +383,15 @@ ssize_t verif_write(int fd, const void *buf, size_t n)
 
   /* start-up input: the k-th write continues exactly where the previous
      one stopped */
-  if (fd == g.in_fd) {
+  bool input = g.in_data != NULL && __CPROVER_same_object(buf, g.in_data);
+  if (input) {
     V_ASSERT("C02/os.write.input_cursor",
              buf == (const void *) (g.in_data + g.stream_pos) &&
                  n == g.in_size - g.stream_pos);
+    V_ASSERT("C02/os.write.input_one_descriptor", g.in_fd == -1 || g.in_fd == fd);
+    /* start-up input must never make start block (C17) */
+    V_ASSERT("C17/os.write.input_nonblocking", !blocking);
+    g.in_fd = fd;
   }
 
   if (blocking) {
@@ -409,7 +414,7 @@ ssize_t verif_write(int fd, const void *buf, size_t n)
   long r = nondet_long();
   /* write(n > 0) on a pipe never reports 0 */
   __CPROVER_assume(r >= (n > 0 ? 1 : 0) && (size_t) r <= n && r <= RW_MAX);
-  if (fd == g.in_fd) {
+  if (input) {
     g.stream_pos += (size_t) r;
   }
   g.wr_ret = r;
